@@ -813,7 +813,8 @@ func (f *TimespanFormat) regexp() *regexp.Regexp {
 		b.WriteString(`\z`)
 		rx, err := regexp.Compile(b.String())
 		if err != nil {
-			panic(`Internal error while compiling Timespan format regexp: ` + err.Error())
+			// a width that is no repeat count of a Go regexp (%1001H, %-0H): the format is at fault, not the program
+			panic(px.Error(px.InvalidRegexp, issue.H{`pattern`: b.String(), `detail`: err.Error()}))
 		}
 		f.rx = rx
 	}
